@@ -45,6 +45,15 @@ def tasks(tier, seed):
                 ts.append({"id": f"step:{cls}[rect,{cone},N={N}]", "fn": "induct_task",
                            "args": {"cls_name": cls, "ctype": "hyperrectangle", "cone": cone, "W": W.tolist(), "N": N,
                                     "prop": "C01", "tier": tier}, "weight": 10 ** (N - 2)})
+            if ratio > 1 + 1e-6:
+                # known finding F-C01-rect-slack-in-objective-space lives here; so that it cannot mask a different defect,
+                # the induction is also run with the weaker bound ε·(Wα)_n the rectangle predicate does guarantee
+                ts.append({"id": f"step(weak slack):{cls}[rect,{cone},N={N}]", "fn": "induct_task",
+                           "args": {"cls_name": cls, "ctype": "hyperrectangle", "cone": cone, "W": W.tolist(), "N": N,
+                                    "prop": "C01", "tier": tier, "weak_slack": True}, "weight": 10 ** (N - 2)})
+                ts.append({"id": f"hist(weak slack):{cls}[rect,{cone},N=2,rounds=2]", "fn": "induct_task",
+                           "args": {"cls_name": cls, "ctype": "hyperrectangle", "cone": cone, "W": W.tolist(), "N": 2,
+                                    "prop": "C01", "tier": tier, "base_only": True, "rounds": 2, "weak_slack": True}, "weight": 20})
             # the step from the initial state on its own: a failure here is a reachable history
             ts.append({"id": f"base:{cls}[rect,{cone},N=2]", "fn": "induct_task",
                        "args": {"cls_name": cls, "ctype": "hyperrectangle", "cone": cone, "W": W.tolist(), "N": 2,
